@@ -104,6 +104,8 @@ def gen_cases(tier, seed):
         elif h == 'email':
             addr = lambda: rng.choice(['a@b.c', 'me@example.org', 'x.y+z@sub.example.com', 'first_last@ex-ample.org'])  # noqa: E731
             kw = {'to': rng.choice([addr(), [addr(), addr()], (addr(),), {'$iter': [addr(), addr()], 'form': 'generator'}])}
+            if rng.random() < 0.04:
+                kw['to'] = rng.choice(['', None, [], ()])
             for f in ('cc', 'bcc'):
                 if rng.random() < 0.3:
                     kw[f] = rng.choice([addr(), [addr(), addr()]])
@@ -141,10 +143,20 @@ def epc_case(rng, bad=False):
     if rng.random() < 0.15 and form in ('decimal', 'str', 'int'):
         kw['ctx_prec'] = rng.choice([4, 6, 9])   # the caller's ambient decimal context must not matter
     if bad:
-        which = rng.choice(['name-long', 'name-empty', 'iban-short', 'iban-long', 'bic-len', 'purpose-len', 'text-long', 'ref-long',
+        which = rng.choice(['too-many-bytes', 'name-long', 'name-empty', 'iban-short', 'iban-long', 'bic-len', 'purpose-len', 'text-long', 'ref-long',
                             'both', 'neither', 'amount-zero', 'amount-big', 'amount-neg', 'enc-num', 'enc-name', 'amount-window', 'amount-window'])
         kw['bad'] = which
-        if which == 'name-long':
+        if which == 'too-many-bytes':
+            # every field within its character limit, but multi-byte characters: more than 331 bytes in UTF-8
+            kw['name'] = rng.choice(['€', 'ü', '☃']) * 70
+            kw.pop('reference', None)
+            kw['text'] = rng.choice(['€', '☃', 'Ł']) * 140
+            if kw['text'][0] == '☃' and rng.random() < 0.5:
+                kw.pop('encoding', None)      # only UTF-8 can represent it: chosen automatically
+            else:
+                kw['encoding'] = rng.choice(['utf-8', 1])
+            kw.pop('ctx_prec', None)
+        elif which == 'name-long':
             kw['name'] = 'n' * 71
         elif which == 'name-empty':
             kw['name'] = rng.choice(['', '   '])
@@ -433,6 +445,15 @@ _HVAL = re.compile(r"^(?:[A-Za-z0-9\-._~!$'()*+,;:@/?]|%[0-9A-Fa-f]{2})*$")
 
 def check_email(kw, rec):
     from segno import helpers
+    if not multi(kw.get('to')):
+        # no recipient at all: "to" is the one mandatory field (documented: must not be empty or None)
+        try:
+            data = helpers.make_make_email_data(**real_kw(kw))
+        except ValueError:
+            rec.count('email_without_recipient_refused')
+            return None
+        rec.deviation('C16', 'mailto-without-recipient-accepted', {'payload': data[:120]})
+        return None
     data = helpers.make_make_email_data(**real_kw(kw))
     rec.count('email_checked')
     m = _MAILTO.match(data)
